@@ -23,17 +23,22 @@ var errVNoCookie = errors.New("http: named cookie not present")
 //
 //verif:stub (*net/http.Request).Cookie
 func stubRequestCookie(r *http.Request, name string) (*http.Cookie, error) {
-	// the model reads the one Cookie header line the harness wrote ("kamal-rollout=<value>"); requests derived with
-	// WithContext share the header map
-	hs := r.Header["Cookie"]
-	if len(hs) == 0 || name != RolloutCookieName {
+	// the model reads the Cookie header lines in the shapes the harness writes: the rollout cookie alone on a line, or
+	// after another cookie on the same line ("other=1; kamal-rollout=<value>"), on any of the lines (net/http scans all
+	// Cookie lines); requests derived with WithContext share the header map
+	if name != RolloutCookieName {
 		return nil, errVNoCookie
 	}
 	prefix := RolloutCookieName + "="
-	if !strings.HasPrefix(hs[0], prefix) {
-		return nil, errVNoCookie
+	for _, line := range r.Header["Cookie"] {
+		if strings.HasPrefix(line, prefix) {
+			return &http.Cookie{Name: name, Value: strings.TrimPrefix(line, prefix)}, nil
+		}
+		if strings.HasPrefix(line, "other=1; "+prefix) {
+			return &http.Cookie{Name: name, Value: strings.TrimPrefix(line, "other=1; "+prefix)}, nil
+		}
 	}
-	return &http.Cookie{Name: name, Value: strings.TrimPrefix(hs[0], prefix)}, nil
+	return nil, errVNoCookie
 }
 
 // vCookieValueOK: the octets net/http accepts verbatim in a cookie value (so that the native replay,
@@ -52,10 +57,28 @@ func vCookieValueOK(v string, cap int) bool {
 	return ok
 }
 
+var vCookieLayout = -1
+
 func vRolloutRequest(tag string, has bool, value string) *http.Request {
 	r := &http.Request{Method: vIteStr(vBool(tag+"_post"), "POST", "GET"), URL: &url.URL{Path: vString(tag+"_path", 3)}, Header: http.Header{}, Host: vString(tag+"_host", 3)}
 	if has {
-		r.Header["Cookie"] = []string{RolloutCookieName + "=" + value}
+		// several cookies: the rollout cookie alone, on a second Cookie line, or after another cookie on the same line
+		// (one choice per run: the first request built gets the chosen layout, each further one the next layout)
+		if vCookieLayout < 0 {
+			vCookieLayout = vChoose("cookie_layout", 3)
+		} else {
+			vCookieLayout = (vCookieLayout + 1) % 3
+		}
+		switch vCookieLayout {
+		case 0:
+			r.Header["Cookie"] = []string{RolloutCookieName + "=" + value}
+		case 1:
+			r.Header["Cookie"] = []string{"other=1", RolloutCookieName + "=" + value}
+		case 2:
+			r.Header["Cookie"] = []string{"other=1; " + RolloutCookieName + "=" + value}
+		}
+	} else {
+		r.Header["Cookie"] = []string{"other=1"}
 	}
 	vCookies[r] = vCookie{has: has, value: value}
 	return r
